@@ -265,6 +265,29 @@ def h_negpow(E, which, expo, enabled):
     return 'value'
 
 
+FUNCTION_SCALARS = ['cos(0)+[1,2,3]', '[1,2,3]+cos(0)', 'abs(x)/v', 'sqrt(4)^A', 'exp(0)-A', 'A-exp(0)', 'norm(v)+v', 'max(1,2)+v', 're(3)/v', 'kronecker(1,1)+v', 'x+v', 'y+v', '2/A',
+                    'trace(A)+A', 'det(A)^v', 'cos(0)*v', 'v*cos(0)', 'v/cos(0)', 'A^cos(0)', 'cos(0)+0*v', 'abs(x)^2*v', 'A*sqrt(4)', '0*cos(0)+v', 'sin(0)+v']
+FUNCTION_SCALARS_OK = {'cos(0)*v', 'v*cos(0)', 'v/cos(0)', 'A^cos(0)', 'abs(x)^2*v', 'A*sqrt(4)', '0*cos(0)+v', 'sin(0)+v'}
+
+
+def h_function_scalar(E, idx):
+    """a scalar that is the VALUE of a function call (a numpy scalar inside the evaluator) or a numpy-typed variable obeys the same rules as a literal:
+    non-zero scalar + array, scalar / array, scalar ^ array are student-facing errors, never a broadcast result; scaling works"""
+    from mitxgraders.helpers.calc.expressions import evaluator
+    from mitxgraders import MatrixGrader
+    from mitxgraders.helpers.calc.math_array import MathArray
+    from mitxgraders.exceptions import StudentFacingError
+    expr = FUNCTION_SCALARS[idx]
+    env = {'x': -2.0, 'y': np.float64(1.5), 'v': MathArray([1.0, 2.0, 3.0]), 'A': MathArray([[1.0, 2.0], [3.0, 5.0]])}
+    try:
+        val, _ = evaluator(expr, env, MatrixGrader.default_functions, {}, max_array_dim=2)
+    except StudentFacingError as e:
+        E.check('shape-violation-is-student-facing-error', expr not in FUNCTION_SCALARS_OK)
+        return type(e).__name__
+    E.check('shape-violation-is-student-facing-error', expr in FUNCTION_SCALARS_OK)
+    return 'value'
+
+
 def h_triple(E, expr, n):
     import mitxgraders.helpers.calc.expressions as X
     from mitxgraders.helpers.calc.exceptions import CalcError
@@ -327,4 +350,6 @@ def harnesses(tier):
                 add(h_negpow, 'negpow', dict(which=which, expo=expo, enabled=en), 'concrete matrix')
     for expr in ('u*v*w', 'u*v*w*u', 'A*u*v*w', 'u*v/2*w', 'u*(v*w)', '(u*v)*w', 'u*A*v', 'u*v', '2*u*v', 'u*v*2'):
         add(h_triple, 'chain', dict(expr=expr, n=2), 'symbolic vectors of length 2')
+    for i in range(len(FUNCTION_SCALARS)):
+        add(h_function_scalar, 'function_scalar', dict(i=i), FUNCTION_SCALARS[i], validate=False)
     return hs
